@@ -25,6 +25,9 @@ Names == << [go |-> "FieldOne",  snake |-> "field_one",  ident |-> "fieldone"],
             [go |-> "InnerB2",   snake |-> "inner_b2",   ident |-> "innerb2"] >>
          \o [i \in 1..14 |-> LET d == IF i < 10 THEN "0" \o ToString(i) ELSE ToString(i) IN
                                [go |-> "W" \o d, snake |-> "w" \o d, ident |-> "w" \o d]]
+         (* name 20: a field name with letters beyond ASCII (the harness spells the placeholders:  *)
+         (* Ärger, ärger, ärger: one word, so no question of where a word begins)                     *)
+         \o << [go |-> "XUNIgo", snake |-> "XUNIsnake", ident |-> "XUNIident"] >>
 Renamed == [go |-> "ReNamed", snake |-> "re_named", ident |-> "renamed"]
 
 Tags == {"none", "omit", "omit_empty", "omit_zero", "omit_never", "name", "first", "o0", "o1"}
@@ -65,7 +68,8 @@ KeysOf(fs, cfg) == IF fs = <<>> THEN <<>>
                    ELSE (IF Included(Head(fs), cfg) THEN << KeyOf(Head(fs), cfg) >> ELSE <<>>) \o KeysOf(Tail(fs), cfg)
 
 (* fields with tag "omit" never take part (extractFields drops them before sorting) *)
-Kept(fs) == SelectSeq(fs, LAMBDA f : f.tag # "omit")
+(* and so do the fields of an embedded struct that carries the tag itself (eomit)  *)
+Kept(fs) == SelectSeq(fs, LAMBDA f : f.tag # "omit" /\ ~f.eomit)
 EmittedKeys(fs, cfg) == KeysOf(StableSort(Kept(fs)), cfg)
 
 (* Unmarshal: does document key k (given in form kf of field g's name) fill field f? *)
